@@ -863,6 +863,36 @@ func (m *minLenEnv) minLenAt(v ssa.Value, facts []Cmp, depth int) int64 {
 		if l, ok := m.paramMin[x]; ok && l > best {
 			best = l
 		}
+	case *ssa.Extract:
+		// one result of a module helper: the least length any of its (not certainly failing) returns gives
+		if call, ok := x.Tuple.(*ssa.Call); ok && depth < 6 {
+			if g := call.Call.StaticCallee(); g != nil && m.P.isModuleFunc(g) && g.Blocks != nil {
+				ei := errorResultIndex(g.Signature)
+				mn := int64(-1)
+				for _, r := range returnsOf(g) {
+					rs := resolvedResults(r)
+					if x.Index >= len(rs) {
+						mn = 0
+						break
+					}
+					if ei >= 0 {
+						if isFreshError(rs[ei]) {
+							continue
+						}
+						if nn, _ := knownNonNil(r.Block(), rs[ei]); nn {
+							continue
+						}
+					}
+					l := m.minLenAt(rs[x.Index], cmpFactsAt(r.Block()), depth+2)
+					if mn < 0 || l < mn {
+						mn = l
+					}
+				}
+				if mn > best {
+					best = mn
+				}
+			}
+		}
 	case *ssa.Const:
 		if s, ok := constString(x); ok && int64(len(s)) > best {
 			best = int64(len(s))
@@ -1239,6 +1269,9 @@ func rulePanicReach(c *Ctx) {
 			for _, in := range b.Instrs {
 				switch x := in.(type) {
 				case *ssa.Panic:
+					if isRangeFuncGuard(x) {
+						continue // compiler-made guard of a range-over-func loop: fires only if the iterator misbehaves
+					}
 					n++
 					key := fmt.Sprintf("%s/panic#%d", fnKey(fn), n)
 					c.Check(!live[b], key, P.pos(x.Pos()), "unreachable once the constant switch on the type's size is folded for this instantiation", "an explicit panic is reachable on the reading path")
@@ -1417,4 +1450,19 @@ func flateReaderAssert(x *ssa.TypeAssert) bool {
 		}
 	}
 	return it.NumMethods() > 0
+}
+
+// isRangeFuncGuard: one of the two panics go/ssa synthesises around the body
+// of a range-over-func loop (no source position, fixed message). They guard
+// the iterator protocol, not the data.
+func isRangeFuncGuard(p *ssa.Panic) bool {
+	if p.Pos() != token.NoPos {
+		return false
+	}
+	mi, ok := p.X.(*ssa.MakeInterface)
+	if !ok {
+		return false
+	}
+	s, ok := constString(mi.X)
+	return ok && (s == "iterator call did not preserve panic" || s == "yield function called after range loop exit")
 }
